@@ -124,7 +124,13 @@ func seedPool(seed int64) []pval {
 	}
 }
 
-func buildPool(tier string, seed int64) []pval {
+func buildPool(tier string, seed int64, poolID string) []pval {
+	switch poolID {
+	case "num":
+		return numGrid(tier)
+	case "str":
+		return strGrid(tier)
+	}
 	p := basePool()
 	if tier == "thorough" {
 		p = append(p, extraPool()...)
@@ -178,12 +184,16 @@ var contexts = []ctxDef{
 // ---- case construction --------------------------------------------------------------------
 
 type world struct {
-	pool  []pval
-	batch *exprsem.Batch
+	pool   []pval
+	poolID string
+	tier   string
+	batch  *exprsem.Batch
+
+	trueMemo map[string]int
 }
 
-func newWorld(tier string, seed int64) *world {
-	w := &world{pool: buildPool(tier, seed)}
+func newWorld(tier string, seed int64, poolID string) *world {
+	w := &world{pool: buildPool(tier, seed, poolID), poolID: poolID, tier: tier}
 	mk := make([]func() data.Value, len(w.pool))
 	var pre strings.Builder
 	for i, p := range w.pool {
@@ -230,14 +240,23 @@ func (w *world) binJob(op, form string, l, r int) (exprsem.Job, bool) {
 	if form == "compound" {
 		return exprsem.Job{ID: id, Src: fmt.Sprintf("$x{S} = __v(%d); $x{S} %s= __v(%d); __r({S}, $x{S});", l, op, r)}, compoundOps[op]
 	}
+	if form == "compound:lit" || form == "compound:var" { // $x op= <literal> / $x op= $y
+		_, fr := "", strings.TrimPrefix(form, "compound:")
+		s2, x2, ok2 := w.operand(fr, r, "b")
+		return exprsem.Job{ID: id, Src: fmt.Sprintf("%s$x{S} = __v(%d); $x{S} %s= %s; __r({S}, $x{S});", s2, l, op, x2)}, compoundOps[op] && ok2
+	}
+	if strings.Contains(form, ":") {
+		return w.condJob(id, op, form, l, r)
+	}
 	if form == "self" { // $a op $a: both operands are the very same value object
 		return exprsem.Job{ID: id, Src: fmt.Sprintf("$a{S} = __v(%d); $r{S} = $a{S} %s $a{S}; __r({S}, $r{S});", l, op)}, l == r
 	}
 	if form == "swap" { // b op a written with variables (for the symmetry law)
 		return exprsem.Job{ID: id, Src: fmt.Sprintf("$a{S} = __v(%d); $b{S} = __v(%d); $r{S} = $b{S} %s $a{S}; __r({S}, $r{S});", l, r, op)}, true
 	}
-	s1, x1, ok1 := w.operand(form, l, "a")
-	s2, x2, ok2 := w.operand(form, r, "b")
+	fl, fr := splitPair(form)
+	s1, x1, ok1 := w.operand(fl, l, "a")
+	s2, x2, ok2 := w.operand(fr, r, "b")
 	if !ok1 || !ok2 {
 		return exprsem.Job{}, false
 	}
@@ -288,6 +307,7 @@ type caseT struct {
 	Forms  []string `json:"forms"`
 	Tier   string   `json:"tier"`
 	Seed   int64    `json:"seed"`
+	Pool   string   `json:"pool,omitempty"` // "" = base pool, "num" / "str" = grid pools
 	Script string   `json:"script"`
 }
 
@@ -449,6 +469,7 @@ type shardArg struct {
 	L     int    `json:"l"`
 	Tier  string `json:"tier"`
 	Seed  int64  `json:"seed"`
+	Pool  string `json:"pool,omitempty"`
 }
 
 type emitter interface{ Emit(v any) }
@@ -473,14 +494,14 @@ type workerState struct {
 }
 
 func (s *workerState) emitFail(key, clause string, size int, cs caseT, detail string) {
-	cs.Tier, cs.Seed = s.arg.Tier, s.arg.Seed
+	cs.Tier, cs.Seed, cs.Pool = s.arg.Tier, s.arg.Seed, s.arg.Pool
 	s.pw.Emit(rec{Kind: "fail", Fail: &failRec{Key: key, Clause: clause, Size: size, Case: cs, Detail: detail}})
 }
 
 // emitFormFail: a finding whose key gets a ":form=" suffix only if, over the whole run, it never
 // fails in all operand forms of a cell (decided by the parent, see formAgg).
 func (s *workerState) emitFormFail(key, clause string, size int, cs caseT, detail string, failed, tried []string) {
-	cs.Tier, cs.Seed = s.arg.Tier, s.arg.Seed
+	cs.Tier, cs.Seed, cs.Pool = s.arg.Tier, s.arg.Seed, s.arg.Pool
 	s.pw.Emit(rec{Kind: "fail", Fail: &failRec{Key: key, Clause: clause, Size: size, Case: cs, Detail: detail, Forms: failed, AllF: len(failed) == len(tried)}})
 }
 
@@ -499,8 +520,8 @@ func handler(kind string) pool.Handler {
 	return func(pw *pool.W, raw json.RawMessage) {
 		var a shardArg
 		json.Unmarshal(raw, &a)
-		s := &workerState{w: newWorld(a.Tier, a.Seed), arg: a, pw: pw, outcomes: map[string]int{}}
-		if !pw.Item(fmt.Sprintf("%s/%d/%d", a.Kind, a.Group, a.L)) {
+		s := &workerState{w: newWorld(a.Tier, a.Seed, a.Pool), arg: a, pw: pw, outcomes: map[string]int{}}
+		if !pw.Item(fmt.Sprintf("%s/%s/%d/%d", a.Kind, poolTitle(a.Pool), a.Group, a.L)) {
 			return
 		}
 		switch a.Kind {
@@ -573,13 +594,26 @@ func (s *workerState) binShard() {
 	ops := opGroups[s.arg.Group]
 	l := s.arg.L
 	nolit := s.litUnavailable()
-	allForms := append(append([]string{}, forms...), "self", "compound", "swap")
-	cellForms := append(append([]string{}, forms...), "self")
+	cellForms := append(pairForms(w.poolID, w.tier), "self")
+	cellForms = append(cellForms, condForms(w.poolID)...)
+	compoundForms := []string{"compound", "compound:lit", "compound:var"}
+	allForms := append(append(append([]string{}, cellForms...), compoundForms...), "swap")
+	usesLit := func(f string, r int) bool { // does the form spell an operand as a literal that is not available?
+		g := f
+		if i := strings.Index(g, ":"); i >= 0 {
+			g = g[i+1:]
+		}
+		fl, fr := splitPair(g)
+		if strings.HasPrefix(f, "compound:") {
+			fl = "call"
+		}
+		return fl == "lit" && nolit[l] || fr == "lit" && nolit[r]
+	}
 	var jobs []exprsem.Job
 	for _, op := range ops {
 		for r := range w.pool {
 			for _, f := range allForms {
-				if f == "lit" && (nolit[l] || nolit[r]) {
+				if usesLit(f, r) {
 					continue
 				}
 				if f == "swap" && op != "==" {
@@ -595,7 +629,14 @@ func (s *workerState) binShard() {
 	s.count(out)
 	get := func(op, f string, r int) (string, bool) {
 		o, ok := out[fmt.Sprintf("bin|%s|%s|%d|%d", op, f, l, r)]
+		if ok && strings.Contains(f, ":") && !strings.HasPrefix(f, "compound:") {
+			o, ok = condOutcome(f, o)
+		}
 		return o, ok
+	}
+	formIndex := map[string]int{}
+	for i, f := range cellForms {
+		formIndex[f] = i
 	}
 	script := func(op, f string, r int) string {
 		j, _ := w.binJob(op, f, l, r)
@@ -604,7 +645,7 @@ func (s *workerState) binShard() {
 	size := func(r, fi int) int { return fi*1000000 + l*1000 + r }
 	for _, op := range ops {
 		for r := range w.pool {
-			exp := exprsem.BinRef(op, w.pool[l].V, w.pool[r].V)
+			exp := refBin(op, w.pool[l].V, w.pool[r].V)
 			if !exp.Open {
 				s.exact++
 			}
@@ -652,24 +693,48 @@ func (s *workerState) binShard() {
 			for k, fs := range byKey {
 				parts := strings.SplitN(k, "\x00", 2)
 				fi := 0
-				for i, f := range cellForms {
-					if f == fs[0] {
-						fi = i
-					}
-				}
+				fi = formIndex[fs[0]]
 				s.emitFormFail(parts[1], parts[0], size(r, fi), caseT{Kind: "bin", Op: op, L: w.pool[l].Name, R: w.pool[r].Name, Forms: fs, Script: script(op, fs[0], r)}, detail[k], fs, tried)
 			}
 			// compound assignment agrees with the binary operator (variable form)
-			if co, ok := get(op, "compound", r); ok {
+			// condition position: the branch taken agrees with the truth value the operator returns
+			if vo, ok := get(op, "var", r); ok && boolOps[op] && (vo == "b:1" || vo == "b:0") {
+				var bad []string
+				var tried []string
+				for _, cf := range condForms(w.poolID) {
+					co, ok := get(op, cf, r)
+					if !ok {
+						continue
+					}
+					tried = append(tried, cf)
+					s.laws++
+					if c1, _ := judge(co, exp); c1 != "" {
+						continue // already reported by the value clause
+					}
+					if co != vo && !strings.HasPrefix(co, "CRASH:") && co != "HANG" {
+						bad = append(bad, cf)
+					}
+				}
+				if len(bad) > 0 {
+					co, _ := get(op, bad[0], r)
+					s.emitFormFail("cond:"+opFamily[op]+":"+kinds(w, l, r), "cond", size(r, formIndex[bad[0]]), caseT{Kind: "bin", Op: op, L: w.pool[l].Name, R: w.pool[r].Name, Forms: bad, Script: script(op, bad[0], r)},
+						fmt.Sprintf("%s %s %s returns %s, but in condition position (%s) the outcome is %s ('a value is truthy in if, while, for, ?: alike')", w.pool[l].Name, op, w.pool[r].Name, vo, bad[0], co), bad, tried)
+				}
+			}
+			for ci, cform := range compoundForms {
+				co, ok := get(op, cform, r)
+				if !ok {
+					continue
+				}
 				vo, _ := get(op, "var", r)
 				s.laws++
 				if strings.HasPrefix(co, "CRASH:") {
 					if !strings.HasPrefix(vo, "CRASH:") {
-						s.emitFail(crashKey(co), "crash", size(r, 4), caseT{Kind: "bin", Op: op, L: w.pool[l].Name, R: w.pool[r].Name, Forms: []string{"compound"}, Script: script(op, "compound", r)},
+						s.emitFail(crashKey(co), "crash", size(r, 40+ci), caseT{Kind: "bin", Op: op, L: w.pool[l].Name, R: w.pool[r].Name, Forms: []string{cform}, Script: script(op, cform, r)},
 							fmt.Sprintf("$x = %s; $x %s= %s panics: %s", w.pool[l].Name, op, w.pool[r].Name, co))
 					}
 				} else if zeroSign(co) != zeroSign(vo) && !(strings.HasPrefix(vo, "CRASH:")) {
-					s.emitFail("compound:"+opFamily[op]+":"+kinds(w, l, r), "compound", size(r, 4), caseT{Kind: "bin", Op: op, L: w.pool[l].Name, R: w.pool[r].Name, Forms: []string{"compound", "var"}, Script: script(op, "compound", r)},
+					s.emitFail("compound:"+opFamily[op]+":"+kinds(w, l, r), "compound", size(r, 40+ci), caseT{Kind: "bin", Op: op, L: w.pool[l].Name, R: w.pool[r].Name, Forms: []string{cform, "var"}, Script: script(op, cform, r)},
 						fmt.Sprintf("$x = %s; $x %s= %s leaves %s in $x, but $x %s %s returns %s", w.pool[l].Name, op, w.pool[r].Name, co, op, w.pool[r].Name, vo))
 				}
 			}
@@ -729,11 +794,11 @@ func (s *workerState) binShard() {
 			}
 		}
 	}
-	if l == 1 && s.arg.Group == 3 {
+	if l == 1 && s.arg.Group == 3 && w.poolID == "" {
 		o, _ := get("%", "var", 0)
 		s.pw.Emit(rec{Kind: "sample", Sample: map[string]any{"script": script("%", "var", 0), "expected": exprsem.BinRef("%", w.pool[l].V, w.pool[0].V).String(), "observed": o}})
 	}
-	if l == 1 && s.arg.Group == 2 {
+	if l == 1 && s.arg.Group == 2 && w.poolID == "" {
 		o, _ := get("+", "var", 3)
 		s.pw.Emit(rec{Kind: "sample", Sample: map[string]any{"script": script("+", "var", 3), "expected": exprsem.BinRef("+", w.pool[l].V, w.pool[3].V).String(), "observed": o}})
 	}
@@ -743,6 +808,7 @@ func (s *workerState) unShard() {
 	w := s.w
 	op := unOps[s.arg.Group]
 	nolit := s.litUnavailable()
+	forms := ctxForms(w.poolID)
 	var jobs []exprsem.Job
 	for i := range w.pool {
 		for _, f := range forms {
@@ -800,13 +866,17 @@ func (s *workerState) ctxShard() {
 	i := s.arg.L
 	p := w.pool[i]
 	nolit := s.litUnavailable()
+	cases := w.ctxCases(w.poolID, i)
+	forms := ctxForms(w.poolID)
+	byName := map[string]ctxCase{}
 	var jobs []exprsem.Job
-	for _, c := range contexts {
+	for _, c := range cases {
+		byName[c.name] = c
 		for _, f := range forms {
 			if f == "lit" && nolit[i] {
 				continue
 			}
-			if j, ok := w.ctxJob(c, f, i); ok {
+			if j, ok := c.job(f); ok {
 				jobs = append(jobs, j)
 			}
 		}
@@ -816,17 +886,23 @@ func (s *workerState) ctxShard() {
 	// truthiness per context/form: "T" | "F" | other outcome
 	verdict := map[string]string{}
 	var order []string
-	for _, c := range contexts {
+	for _, c := range cases {
 		for _, f := range forms {
 			o, ok := out[fmt.Sprintf("ctx|%s|%s|%d", c.name, f, i)]
 			if !ok {
 				continue
 			}
 			v := o
-			switch o {
-			case "i:1", "b:1":
+			switch {
+			case c.t != "" && o == c.t:
 				v = "T"
-			case "i:0", "b:0":
+			case c.f != "" && o == c.f:
+				v = "F"
+			case c.t != "" && strings.HasPrefix(o, "i:"):
+				v = "PARTIAL(" + o + ",truthy=" + c.t + ",falsy=" + c.f + ")"
+			case o == "i:1" || o == "b:1":
+				v = "T"
+			case o == "i:0" || o == "b:0":
 				v = "F"
 			}
 			if c.neg {
@@ -858,13 +934,34 @@ func (s *workerState) ctxShard() {
 	}
 	mkCase := func(name string) caseT {
 		parts := strings.SplitN(name, "/", 2)
-		for _, c := range contexts {
-			if c.name == parts[0] {
-				j, _ := w.ctxJob(c, parts[1], i)
-				return caseT{Kind: "ctx", Op: c.name, L: p.Name, Forms: []string{parts[1]}, Script: w.batch.BareScript(j)}
-			}
+		if c, ok := byName[parts[0]]; ok {
+			j, _ := c.job(parts[1])
+			return caseT{Kind: "ctx", Op: c.name, L: p.Name, Forms: []string{parts[1]}, Script: w.batch.BareScript(j)}
 		}
 		return caseT{}
+	}
+	// truthyKey: a disagreement confined to one construct (all its scopes / forms) is a defect of that
+	// construct, whatever the value kind; otherwise it is the kind's conversion rule.
+	truthyKey := func(minority []string) string {
+		fam := ""
+		for _, n := range minority {
+			f := ctxFamily(strings.SplitN(n, "/", 2)[0])
+			if fam == "" {
+				fam = f
+			} else if fam != f {
+				return "truthy:" + p.V.K.String()
+			}
+		}
+		if fam == "" {
+			return "truthy:" + p.V.K.String()
+		}
+		return "truthy:in-" + fam
+	}
+	short := func(ns []string) string {
+		if len(ns) > 14 {
+			return strings.Join(ns[:14], " ") + fmt.Sprintf(" ... (%d)", len(ns))
+		}
+		return strings.Join(ns, " ")
 	}
 	seenCrash := map[string]bool{}
 	for _, n := range crashes {
@@ -879,21 +976,32 @@ func (s *workerState) ctxShard() {
 		if len(ts) < len(fs) {
 			minority = ts
 		}
-		s.emitFail("truthy:"+p.V.K.String(), "truthy", i, mkCase(minority[0]),
-			fmt.Sprintf("%s is truthy in [%s] but falsy in [%s] ('a value is truthy in if, while, for, ?:, !, &&, || and (bool) alike')", p.Name, strings.Join(ts, " "), strings.Join(fs, " ")))
+		if t, ok := exprsem.Truth(p.V); ok {
+			// the uncontested truth value decides which side is wrong
+			if t {
+				minority = fs
+			} else {
+				minority = ts
+			}
+		}
+		s.emitFail(truthyKey(minority), "truthy", i, mkCase(minority[0]),
+			fmt.Sprintf("%s is truthy in [%s] but falsy in [%s] ('a value is truthy in if, while, for, ?:, !, &&, || and (bool) alike')", p.Name, short(ts), short(fs)))
 	} else if t, ok := exprsem.Truth(p.V); ok && (t && len(fs) > 0 || !t && len(ts) > 0) {
 		all := append(ts, fs...)
-		s.emitFail("truthy:"+p.V.K.String(), "truthy", i, mkCase(all[0]), fmt.Sprintf("%s must be %v in every boolean context, observed truthy in [%s], falsy in [%s]", p.Name, t, strings.Join(ts, " "), strings.Join(fs, " ")))
+		s.emitFail("truthy:"+p.V.K.String(), "truthy", i, mkCase(all[0]), fmt.Sprintf("%s must be %v in every boolean context, observed truthy in [%s], falsy in [%s]", p.Name, t, short(ts), short(fs)))
 	}
 	if len(others) > 0 && p.V.Scalar() {
 		// a scalar in a boolean context must produce a truth value (errors are not "alike")
 		if len(ts)+len(fs) > 0 {
-			n := strings.SplitN(others[0], "=", 2)[0]
-			s.emitFail("truthy:"+p.V.K.String(), "truthy", i, mkCase(n), fmt.Sprintf("%s gives a truth value in [%s] but not in [%s]", p.Name, strings.Join(append(ts, fs...), " "), strings.Join(others, " ")))
+			var names []string
+			for _, o := range others {
+				names = append(names, strings.SplitN(o, "=", 2)[0])
+			}
+			s.emitFail(truthyKey(names), "truthy", i, mkCase(names[0]), fmt.Sprintf("%s gives a truth value in [%s] but not in [%s]", p.Name, short(append(ts, fs...)), short(others)))
 		}
 	}
-	if i == 2 {
-		s.pw.Emit(rec{Kind: "sample", Sample: map[string]any{"value": p.Name, "truthy_in": ts, "falsy_in": fs, "other": others}})
+	if i == 2 && w.poolID == "" {
+		s.pw.Emit(rec{Kind: "sample", Sample: map[string]any{"value": p.Name, "truthy_in": len(ts), "falsy_in": len(fs), "falsy_examples": short(fs), "truthy_examples": short(ts), "other": others}})
 	}
 }
 
@@ -906,7 +1014,7 @@ func main() {
 	if f := os.Getenv("C03_PROBE"); f != "" {
 		// development aid: run a script file with the pool environment (__v, __pool, __r, __e) installed
 		b, _ := os.ReadFile(f)
-		w := newWorld("thorough", 0)
+		w := newWorld("thorough", 0, os.Getenv("C03_PROBE_POOL"))
 		env := w.batch.NewEnv()
 		res := env.Run(w.batch.Prelude+"\n"+string(b), 0)
 		fmt.Printf("kind=%s class=%s msg=%s panic=%s\n", res.Kind, res.Class, res.Msg, res.PanicKey)
@@ -927,19 +1035,32 @@ func main() {
 		return
 	}
 	c.SetBudget(4*time.Minute, 20*time.Minute)
-	w := newWorld(c.Tier, c.Seed)
+	w := newWorld(c.Tier, c.Seed, "")
 	var shards []pool.Shard
-	shards = append(shards, pool.Shard{Kind: "c03", Arg: shardArg{Kind: "ident", Tier: c.Tier, Seed: c.Seed}})
-	for g := range opGroups {
-		for l := range w.pool {
-			shards = append(shards, pool.Shard{Kind: "c03", Arg: shardArg{Kind: "bin", Group: g, L: l, Tier: c.Tier, Seed: c.Seed}})
+	var cells int64
+	poolSizes := map[string]int{}
+	poolNames := map[string][]string{}
+	for _, pid := range poolIDs {
+		pw := newWorld(c.Tier, c.Seed, pid)
+		n := int64(len(pw.pool))
+		poolSizes[poolTitle(pid)] = len(pw.pool)
+		for _, p := range pw.pool {
+			poolNames[poolTitle(pid)] = append(poolNames[poolTitle(pid)], p.Name)
 		}
-	}
-	for g := range unOps {
-		shards = append(shards, pool.Shard{Kind: "c03", Arg: shardArg{Kind: "un", Group: g, Tier: c.Tier, Seed: c.Seed}})
-	}
-	for l := range w.pool {
-		shards = append(shards, pool.Shard{Kind: "c03", Arg: shardArg{Kind: "ctx", L: l, Tier: c.Tier, Seed: c.Seed}})
+		cells += int64(len(binOps))*n*n + int64(len(unOps))*n + n
+		shards = append(shards, pool.Shard{Kind: "c03", Arg: shardArg{Kind: "ident", Tier: c.Tier, Seed: c.Seed, Pool: pid}})
+		// the big grid rows first (better balance at the tail)
+		for g := range opGroups {
+			for l := range pw.pool {
+				shards = append(shards, pool.Shard{Kind: "c03", Arg: shardArg{Kind: "bin", Group: g, L: l, Tier: c.Tier, Seed: c.Seed, Pool: pid}})
+			}
+		}
+		for g := range unOps {
+			shards = append(shards, pool.Shard{Kind: "c03", Arg: shardArg{Kind: "un", Group: g, Tier: c.Tier, Seed: c.Seed, Pool: pid}})
+		}
+		for l := range pw.pool {
+			shards = append(shards, pool.Shard{Kind: "c03", Arg: shardArg{Kind: "ctx", L: l, Tier: c.Tier, Seed: c.Seed, Pool: pid}})
+		}
 	}
 	agg := &formAgg{by: map[string]*aggEntry{}}
 	var total, scripts, bare, exactN, laws int64
@@ -966,7 +1087,7 @@ func main() {
 		case "sample":
 			c.Sample(r.Sample)
 		case "nolit":
-			nolit = r.NoLit
+			nolit = append(nolit, r.NoLit...)
 		case "harness":
 			c.HarnessError("%s", r.Harness)
 		}
@@ -984,6 +1105,23 @@ func main() {
 	}
 	c.Set("pool", names)
 	c.Set("pool_size", len(w.pool))
+	c.Set("grid_pools", poolNames)
+	c.Set("pool_sizes", poolSizes)
+	c.Set("binary_cell_forms_base", append(append(pairForms("", c.Tier), "self"), condForms("")...))
+	c.Set("binary_cell_forms_grids", append(append(pairForms("num", c.Tier), "self"), condForms("num")...))
+	c.Set("compound_forms", []string{"compound", "compound:lit", "compound:var"})
+	var scn, gcn []string
+	for _, x := range scopes {
+		scn = append(scn, x.name)
+	}
+	for _, x := range genContexts {
+		gcn = append(gcn, x.name)
+	}
+	for _, x := range extraContexts {
+		gcn = append(gcn, x.name)
+	}
+	c.Set("context_scopes", scn)
+	c.Set("additional_contexts", gcn)
 	c.Set("binary_operators", binOps)
 	c.Set("prefix_operators", unOps)
 	c.Set("operand_forms", append(append([]string{}, forms...), "compound-assignment"))
@@ -1007,10 +1145,9 @@ func main() {
 	if exactN < 1000 {
 		c.HarnessError("vacuous: only %d cells had an exact expectation", exactN)
 	}
-	n := int64(len(w.pool))
-	cells := int64(len(binOps))*n*n + int64(len(unOps))*n + n
 	c.Set("table_cells", cells)
-	c.Finish(cells, total, total, fmt.Sprintf("complete table: %d binary operators x %d^2 ordered operand pairs x 4 operand forms + compound assignment + swapped ==; %d prefix operators x pool x forms; %d boolean contexts x pool x forms; states = table cells (operator x operand tuple), executions = cases run (cells x operand forms, contexts)", len(binOps), len(w.pool), len(unOps), len(contexts)))
+	sort.Strings(nolit)
+	c.Finish(cells, total, total, fmt.Sprintf("complete tables over three pools (base %d values, numeric boundary grid %d, string grid %d): %d binary operators x every ordered operand pair x operand-form pairs (base: all 16 of var/call/elem/lit; grids: var, lit, var-lit, lit-var) + same-object + 3 compound-assignment spellings + swapped == + the boolean-valued operators in condition position (if / while / for / ?: / for inside a generator); %d prefix operators x pool x forms; (%d+%d boolean contexts x %d scopes + %d generator-suspended contexts) x pool x forms; states = table cells (operator x operand tuple), executions = cases run", poolSizes["base"], poolSizes["num"], poolSizes["str"], len(binOps), len(unOps), len(contexts), len(extraContexts), len(scopes), len(genContexts)))
 }
 
 // formAgg decides the ":form=" suffix of form-aggregated keys: none if the finding occurs in all
@@ -1047,10 +1184,13 @@ func (a *formAgg) finalKey(base string) string {
 		return base
 	}
 	var fs []string
-	for _, f := range []string{"var", "call", "elem", "lit", "self"} {
+	for _, f := range allFormNames() {
 		if e.forms[f] {
 			fs = append(fs, f)
 		}
+	}
+	if len(fs) > 4 {
+		fs = append(fs[:3:3], fmt.Sprintf("and-%d-more", len(fs)-3))
 	}
 	return base + ":form=" + strings.Join(fs, "+")
 }
@@ -1072,7 +1212,7 @@ func replay(c *ev.Check) {
 		c.HarnessError("replay: %v", err)
 		c.Finish(1, 1, 1, "replay")
 	}
-	w := newWorld("thorough", cs.Seed)
+	w := newWorld("thorough", cs.Seed, cs.Pool)
 	l, r := w.index(cs.L), w.index(cs.R)
 	fmt.Printf("key: %s\ncase: %s %s %s forms=%v\n", key, cs.L, cs.Op, cs.R, cs.Forms)
 	if l < 0 {
@@ -1102,7 +1242,7 @@ func replay(c *ev.Check) {
 func replayRow(w *world, cs caseT, l, r int) []failRec {
 	wp := &localW{}
 	s := &workerState{w: w, pw: wp, outcomes: map[string]int{}}
-	s.arg.Tier, s.arg.Seed = cs.Tier, cs.Seed
+	s.arg.Tier, s.arg.Seed, s.arg.Pool = cs.Tier, cs.Seed, cs.Pool
 	switch cs.Kind {
 	case "bin":
 		for g, ops := range opGroups {
